@@ -36,6 +36,31 @@ pub fn run(tier: &str, out: &str) -> i32 {
             }
         }
     }
+    // white space and control characters at every position (leading and trailing in particular): they are ordinary
+    // ambiguous bytes and positions are byte offsets into the string as given
+    for_each_string(b"AC \n\t", 0, if thorough { 6 } else { 5 }, |s| {
+        if s.iter().any(|b| b" \n\t".contains(b)) {
+            kmer_line(&mut w, s, 1);
+            kmer_line(&mut w, s, 2);
+            for (wsz, m) in [(1usize, 1usize), (2, 1), (3, 2)] {
+                let items: Vec<String> = MinimiserGenerator::new(s, wsz, m).map(|(v, a, b)| format!("{}:{}:{}", v, a, b)).collect();
+                writeln!(w, "M {} {} {} {}", hex(s), wsz, m, items.join(",")).unwrap();
+            }
+        }
+    });
+    for lead in ["\u{a0}", "\u{3000}", "\r\n", "\u{2028}", "\u{feff}", "\u{85}"] {
+        for body in ["ACGTAC", "AC", "ACNGT"] {
+            for (pre, post) in [(true, false), (false, true), (true, true)] {
+                let st = format!("{}{}{}", if pre { lead } else { "" }, body, if post { lead } else { "" });
+                let b = st.as_bytes();
+                kmer_line(&mut w, b, 2);
+                for (wsz, m) in [(2usize, 1usize), (3, 2)] {
+                    let items: Vec<String> = MinimiserGenerator::new(b, wsz, m).map(|(v, a, c)| format!("{}:{}:{}", v, a, c)).collect();
+                    writeln!(w, "M {} {} {} {}", hex(b), wsz, m, items.join(",")).unwrap();
+                }
+            }
+        }
+    }
     // long inputs (thousands of items per iterator)
     for (len, seed) in [(1030usize, 5u64), (2049, 6), (5000, 1), (20_000, 3), (70_000, 4)] {
         let s = crate::iters::long_input(len, seed);
